@@ -268,9 +268,8 @@ def parse_linear(eng, e):
 def sincos_term(eng, st, e):
     """(sin e, cos e) as z3 terms"""
     s = _st(eng)
-    e0 = e
-    e = z3.simplify(e, som=False)
-    if z3.is_rational_value(e) and e.numerator_as_long() == 0:
+    ez = z3.simplify(e, som=False)
+    if z3.is_rational_value(ez) and ez.numerator_as_long() == 0:
         return RV(0), RV(1)
     try:
         atoms, pim = parse_linear(eng, e)
@@ -488,6 +487,8 @@ def _log(eng, st, x, ty):
         eng.add_obligation(st, "def:log-of-positive", "def", e > 0)
         st.assume(e > 0)
         st.assume(eng.mark_def(z3.And(z3.Implies(e > 1, L > 0), z3.Implies(e < 1, L < 0), z3.Implies(e == 1, L == 0))))
+        # tangent bounds: 1 - 1/u <= log u <= u - 1
+        st.assume(eng.mark_def(z3.And(L <= e - 1, L * e >= e - 1)))
     return SV(L, d=_d_scale(x, 1 / e))
 
 
